@@ -16,6 +16,9 @@ from core import Violation, guarded, require, scratch_dir
 
 ID = "C04"
 LEVEL = "exploration"
+LEVEL_TEXT = (
+    "Statistical: false-discovery proportions measured against simulated ground truth; a per-dataset gross bound and a per-(learner, level, alpha) mean bound with a stated tolerance band. Detects leaks and gross mis-estimation, not small bias."
+)
 TECHNIQUE = (
     "Hypothesis-generated simulated datasets with known ground truth (exchangeable null targets and decoys) x learner "
     "capacity (linear SVM, fully grown tree, 1-NN, row-memorising estimator) x folds x training cap x prediction chunk "
